@@ -119,12 +119,12 @@ pub fn cases_c09(cfg: &Cfg) -> Vec<Case> {
     let mut rng = Rng::derive(cfg.seed, "c09", 0);
     let mut out = Vec::new();
     let (lens, budget, sweep): (Vec<usize>, usize, usize) = match (cfg.scale, cfg.tier) {
-        (Scale::Tiny, Tier::Quick) => (vec![2200], 30, 24),
-        (Scale::Tiny, Tier::Thorough) => (vec![2200, 4300], 60, 60),
-        (Scale::Mid, Tier::Quick) => (vec![2049, 9000, 26_000], 1500, 2048),
-        (Scale::Mid, Tier::Thorough) => (vec![2049, 9000, 26_000, 70_001], 4000, 2048),
-        (Scale::Full, Tier::Quick) => (vec![2047, 2049, 9000, 26_000, 70_001], 6000, 2048 + 300),
-        (Scale::Full, Tier::Thorough) => (vec![2047, 2049, 4097, 9000, 26_000, 70_001, 300_000], 20_000, 2 * 2048 + 300),
+        (Scale::Tiny, Tier::Quick) => (vec![2048], 30, 24),
+        (Scale::Tiny, Tier::Thorough) => (vec![2048, 4300], 60, 60),
+        (Scale::Mid, Tier::Quick) => (vec![2048, 2049, 8192, 26_000], 1500, 2048),
+        (Scale::Mid, Tier::Thorough) => (vec![2048, 2049, 4096, 9000, 26_000, 70_001], 4000, 2048),
+        (Scale::Full, Tier::Quick) => (vec![2047, 2048, 2049, 4096, 9000, 26_624, 70_001], 6000, 2048 + 300),
+        (Scale::Full, Tier::Thorough) => (vec![2047, 2048, 2049, 4096, 4097, 6144, 9000, 26_624, 70_001, 300_000], 20_000, 2 * 2048 + 300),
     };
     let aliases: Vec<&'static str> = PLAIN_QUAD.iter().chain(HUFF_QUAD.iter()).copied().collect();
     let types: &[&'static str] = if cfg.scale == Scale::Tiny { &["u8", "u32"] } else { &["u8", "u16", "u32", "u64", "usize", "u128"] };
@@ -140,6 +140,10 @@ pub fn cases_c09(cfg: &Cfg) -> Vec<Case> {
                 (Alpha::Dense(200), Dist::Geometric(1.3)),
                 (Alpha::Holes { k: 30, max: 250 }, Dist::Random),
                 (Alpha::Dense(16), Dist::Exact(deep_code_weights(4, 5))),
+                // counts 8:4:2:1:1 (scaled): the deeper levels hold exact fractions of the sequence, so
+                // their lengths are exact multiples of the 2048-symbol sampling period
+                (Alpha::Dense(5), Dist::Exact(vec![8, 4, 2, 1, 1])),
+                (Alpha::Dense(13), Dist::Exact(vec![2048, 1024, 512, 256, 128, 64, 32, 16, 8, 4, 2, 1, 1])),
                 (Alpha::Dense(25), Dist::Exact(deep_code_weights(4, 8))),
             ]
         } else {
@@ -175,7 +179,11 @@ pub fn cases_c09(cfg: &Cfg) -> Vec<Case> {
                     Dist::Exact(w) => {
                         // scale the exact profile up so that the sequence is long enough
                         let base: u64 = w.iter().sum();
-                        let f = (n as u64 / base).max(1);
+                        let mut f = (n as u64 / base).max(1);
+                        if base.is_power_of_two() {
+                            // keep every level length an exact multiple of the sampling period
+                            f = f.next_power_of_two().max((2048 * 4 / base).max(1));
+                        }
                         let w2: Vec<u64> = w.iter().map(|x| x * f).collect();
                         (w2.iter().sum::<u64>() as usize, Dist::Exact(w2))
                     }
